@@ -240,6 +240,9 @@ def run(prog, rep, tier):
     for q, p in ((U + "mec", "A"), (U + "imec", "A"), (U + "is_consistent_extension", "G")):
         dag_gate(rep, prog, q, p, rule="GATE")
     member_rules(rep, prog)
+    # membership compares *sets* of v-structure triples: the triples must be canonical ((min, c, max), unshielded colliders)
+    from .C16 import vstructure_rules
+    vstructure_rules(rep, prog)
     all_dags_rules(rep, prog)
     orientation_rules(rep, prog)
     dispatch_rules(rep, prog)
